@@ -265,24 +265,49 @@ PG_RULE = HIST_RULE + ("; recorded with every WriteAt/fdatasync/truncate/mmap ca
                        "the real freelist after every writer begin/commit/rollback, its version page set with the independent decoder's, its allocated set with the pages actually written")
 
 
+def _fault_extra(ctx, res, pid, mode, as_propfail=False, n_quick="2", n_thorough="20"):
+    """failed commits are part of this property's quantifier too: the C08 fault histories (every I/O call index of a commit failed once, with and without a reader
+    held across the failure, followed by page-recycling writers), judged by this property's rules only"""
+    if ctx.replay:
+        return
+    ctx2 = Ctx(pid=pid, tier=ctx.tier, seed=ctx.seed, replay=None, t0=ctx.t0, budget_s=ctx.budget_s)
+    ctx2.dir = ctx.dir + ".f"
+    with ctx2:
+        runs = run_sharded(ctx2, "c08", 8, lambda i: ["-seed", str(ctx.seed * 1000 + 500 + i), "-n", n_quick if (ctx.tier == "quick" or ctx.budget_s) else n_thorough, "-dir", "{dir}"],
+                           ctx.budget_s or (900 if ctx.tier == "quick" else 3000), oracle_mode=mode)
+        for r in runs:
+            sub = Result()
+            absorb(sub, pid, *r)
+            if as_propfail:
+                sub.propfails += sub.mismatches
+                sub.mismatches = []
+            res.merge(sub)
+
+
 def c06(ctx):
     """C06 no overwrite of visible pages: (S) every real WriteAt is intersected with the decoder-computed page sets of the newest committed state and of every
     open reader's state, meta writes must hit the other slot; (K) Pager.v replayed on the real freelist events. Domain: files made by Open + histories."""
-    return _hist(ctx, "c06", "commit+io", PG_RULE, 240, 16000)
+    res = _hist(ctx, "c06", "commit+io", PG_RULE + "; plus failed-commit histories (see C08)", 240, 16000)
+    _fault_extra(ctx, res, "C06", "c06")
+    return res
 
 
 def c10(ctx):
     """C10 reclamation: (S) after every writer begin with no reader open nothing is pending; no page of an open reader's version is ever in the free list; published
     FreePageN/PendingPageN equal the live freelist; (K) Pager.v replayed on the real freelist events (free and pending sets compared after every step)."""
-    return _hist(ctx, "c10", "commit+io", PG_RULE, 240, 16000)
+    res = _hist(ctx, "c10", "commit+io", PG_RULE + "; plus failed-commit histories (see C08)", 240, 16000)
+    _fault_extra(ctx, res, "C10", "c10")
+    return res
 
 
 def c02(ctx):
     """C02 snapshot isolation: every open read transaction is fully re-dumped (recursive buckets, values, sequences, cursor order) after every writer event and compared
     with the Spec.v state of its begin; histories always hold readers of different ages across commits, rollbacks, page reuse, grow and remap (blocked commits are
     observed, the readers the harness then closes are inputs)."""
-    return _hist(ctx, "c04", "none", HIST_RULE + "; every history holds up to 3 readers open and re-dumps each after every writer event", 400, 30000,
-                 as_propfail=True, extra_args=("-readers",))
+    res = _hist(ctx, "c04", "none", HIST_RULE + "; every history holds up to 3 readers open and re-dumps each after every writer event; plus failed-commit histories with a reader held across the failure", 400, 30000,
+                as_propfail=True, extra_args=("-readers",))
+    _fault_extra(ctx, res, "C02", "c08", as_propfail=True)
+    return res
 
 
 def c11(ctx):
